@@ -12,6 +12,7 @@
 
 #include <vector>
 #include <cassert>
+#include <cstring>
 
 #include "with_allocator.h"
 #include "function.h"
@@ -166,13 +167,13 @@ public:
             owner = this;
         }
         COCLS_VERIF_POINT(rs_alloc_flagged);
-        auto s = reinterpret_cast<reusable_storage_mtsafe **>(reinterpret_cast<char *>(p) + sz);
-        *s = owner;
+        //sz needn't be a multiple of the pointer size (promise_extra_storage with an odd sized object)
+        std::memcpy(reinterpret_cast<char *>(p) + sz, &owner, sizeof(owner));
         return p;
     }
     static void dealloc(void *ptr, std::size_t sz) {
-        auto s = reinterpret_cast<reusable_storage_mtsafe **>(reinterpret_cast<char *>(ptr) + sz);
-        auto me = *s;
+        reusable_storage_mtsafe *me;
+        std::memcpy(&me, reinterpret_cast<char *>(ptr) + sz, sizeof(me));
         COCLS_VERIF_POINT(rs_dealloc_entry);
         //don't touch _ptr here, other thread can be reallocating the block right now
         if (me) {
